@@ -225,6 +225,11 @@ func c10Step(x *engine.Exec) []engine.Failure {
 		if quiet {
 			x.Cnt.Inc("block.quiet")
 		}
+		for _, den := range x.Prev.Snap().Denoms {
+			if !x.Prev.Snap().Assets[den].RewardWeight.Equal(x.Next.Snap().Assets[den].RewardWeight) {
+				x.Cnt.Inc("block.with_scheduled_weight_change")
+			}
+		}
 		return c10Check(x)
 	case world.KNUndelegateAll, world.KNRedelegateAll:
 		x.Cnt.Inc("native.full_exit")
@@ -242,7 +247,8 @@ func c10Config() world.Config {
 	cfg := world.DefaultConfig()
 	cfg.FullPipeline = true
 	cfg.Assets = []world.AssetCfg{
-		{Denom: "aaa", Weight: "1", Min: "0", Max: "5", TakeRate: "0"},
+		// aaa has a weight schedule (x0.5 every 4u): scheduled weight changes must be followed by voting power too
+		{Denom: "aaa", Weight: "1", Min: "0", Max: "5", TakeRate: "0", ChangeRate: "0.5", ChangeInterval: 4 * U},
 		{Denom: "bbb", Weight: "0.5", Min: "0", Max: "5", TakeRate: "0"},
 		{Denom: "ccc", Weight: "2", Min: "0", Max: "5", TakeRate: "0", StartOffset: 4 * U},
 	}
@@ -307,7 +313,7 @@ func init() {
 					Property: "C10", Name: name, Cfg: c10Config(), Stores: world.AllStores,
 					Seeds: [][]world.Op{c10Seed}, ClassNames: classNames, Budgets: budgets, MaxDepth: depth,
 					Ops: c10Ops(tier, false), Step: c10Step, SeedStep: true,
-					Required: []string{"block.quiet", "block.with_positive_target", "block.with_non_bonded_validator", "block.with_exchange_rate_not_1", "block.with_staked_warmup_asset", "native.full_exit", "real_slash", "jail", "max_validators_changed"},
+					Required: []string{"block.quiet", "block.with_positive_target", "block.with_non_bonded_validator", "block.with_exchange_rate_not_1", "block.with_staked_warmup_asset", "native.full_exit", "real_slash", "jail", "max_validators_changed", "block.with_scheduled_weight_change"},
 				}
 			}
 			if tier == "thorough" {
@@ -318,7 +324,7 @@ func init() {
 		Assumptions: []string{
 			"full-pipeline world: ModuleManager.EndBlock/BeginBlock with harness-built VoteInfos, real StakingKeeper.Slash, real x/staking msg server for native delegations, Jail/Unjail through the staking keeper, MaxValidators through staking params",
 			"target recomputed from the post-state: native bonded = total bonded - sum over bonded validators of truncated module tokens; tolerance 2 base units, widened by (sum of weights) x (#bonded validators with module stake + 1) when some validator's exchange rate differs from 1 (truncation inside GetAllianceBondedAmount)",
-			fmt.Sprintf("assets: aaa w=1, bbb w=0.5, ccc w=2 warming up until +%s", 4*U),
+			fmt.Sprintf("assets: aaa w=1 decaying x0.5 every %s, bbb w=0.5, ccc w=2 warming up until +%s", 4*U, 4*U),
 		},
 	})
 	_ = banktypes.ModuleName
